@@ -315,7 +315,7 @@ fn parse_into(text: &str, path: &str, include_dir: &str, unit: &mut Unit) -> Res
                                 .map_err(|_| format!("{}: bad #n", origin))?;
                             place = place[..i].to_string();
                         }
-                        if !matches!(place.as_str(), "before" | "after" | "replace" | "start" | "end") {
+                        if !matches!(place.as_str(), "before" | "after" | "replace" | "start" | "end" | "tail") {
                             return Err(format!("{}: bad splice place `{}`", origin, place));
                         }
                         let anchor = if rest.is_empty() { Vec::new() } else { parse_pattern(&rest)? };
